@@ -263,35 +263,43 @@ func ruleTokenAgreement(w *World, r *RuleResult) {
 		}
 	}
 	// reader: literal -> Form stored under its guard
-	parserTokens := w.stringConstsIn(par)
+	pars := w.parserFuncs()
+	parserTokens := map[string]bool{}
+	for _, pf := range pars {
+		for t := range w.stringConstsIn(pf) {
+			parserTokens[t] = true
+		}
+	}
 	readForm := func(tok string) (int64, bool) {
 		// the Form constant stored in blocks guarded by that token's test
-		for _, b := range par.Blocks {
-			gs := guardsAt(b)
-			for _, pb := range b.Preds {
-				eg := edgeGuards(pb, b)
-				if len(eg) > 0 {
-					gs = append(gs, eg[len(eg)-1])
-				}
-			}
-			for _, g := range gs {
-				if !g.Val {
-					continue
-				}
-				hit := false
-				w.exprOf(par, g.Cond).walk(func(x *Expr) bool {
-					if x.Op == "const" && x.Name == tok {
-						hit = true
+		for _, par := range pars {
+			for _, b := range par.Blocks {
+				gs := guardsAt(b)
+				for _, pb := range b.Preds {
+					eg := edgeGuards(pb, b)
+					if len(eg) > 0 {
+						gs = append(gs, eg[len(eg)-1])
 					}
-					return true
-				})
-				if !hit {
-					continue
 				}
-				for _, in := range b.Instrs {
-					if st, ok := in.(*ssa.Store); ok && w.exprOf(par, st.Addr).String() == "&d.Form" {
-						if k, ok := st.Val.(*ssa.Const); ok {
-							return ci(k), true
+				for _, g := range gs {
+					if !g.Val {
+						continue
+					}
+					hit := false
+					w.exprOf(par, g.Cond).walk(func(x *Expr) bool {
+						if x.Op == "const" && x.Name == tok {
+							hit = true
+						}
+						return true
+					})
+					if !hit {
+						continue
+					}
+					for _, in := range b.Instrs {
+						if st, ok := in.(*ssa.Store); ok && w.recvFieldStore(par, st, "Form") {
+							if k, ok := st.Val.(*ssa.Const); ok {
+								return ci(k), true
+							}
 						}
 					}
 				}
@@ -360,12 +368,17 @@ func ruleTokenAgreement(w *World, r *RuleResult) {
 	// exponent marker: parser searches 'e' after lower-casing; fmtE writes its fmt byte which is 'e'/'E'
 	key = "exponent marker"
 	okE := false
-	for _, c := range w.callsTo(par, "strings.IndexByte") {
-		if k, ok := c.Common().Args[1].(*ssa.Const); ok && ci(k) == 'e' {
-			okE = true
+	lower := false
+	for _, pf := range pars {
+		for _, c := range w.callsTo(pf, "strings.IndexByte") {
+			if k, ok := c.Common().Args[1].(*ssa.Const); ok && ci(k) == 'e' {
+				okE = true
+			}
+		}
+		if len(w.callsTo(pf, "strings.ToLower")) > 0 {
+			lower = true
 		}
 	}
-	lower := len(w.callsTo(par, "strings.ToLower")) > 0
 	if okE && lower {
 		r.ok(key, w.pos(par.Pos()), "parser lower-cases and splits at 'e'; the formatter writes 'e' or 'E'", true)
 	} else {
